@@ -27,7 +27,7 @@ impl TokenSet {
     }
 
     pub(crate) const fn contains(&self, kind: SyntaxKind) -> bool {
-        self.0 & mask(kind) != 0
+        (kind as usize) < 128 && self.0 & mask(kind) != 0
     }
 }
 
